@@ -79,8 +79,12 @@ def _tmpl(code: str, cls: str, idx: str, sub: str, src: str) -> str | None:
 def payload_for(f: dict) -> str:
     cls = {"RQ": "q", " W": "w"}.get(f["verb"], "r")
     idx, sub = f["idx"], f["sub"]
+    bad0 = ""
     if f["fam"] == "none":
+        bad0 = idx if idx not in ("", "00") else ""      # near miss: an index where the code has none (first byte not 00)
         idx = "00"
+    if bad0:
+        return bad0 + payload_for(dict(f, idx=""))[2:]
     if f["code"] == "0404" and f["verb"] == " I":  # the answer to a W|0404 carries no data
         return ("00230008" if idx == "HW" else f"{idx}200008") + f"00{sub}03"
     for c in (cls, "r", "w", "q"):
@@ -131,6 +135,8 @@ def split_hdr(h: str | None) -> list[str]:
     if h is None:
         return ["", "", "", ""]
     parts = h.split("|")
+    if len(parts) == 2:      # the "code|verb" stub Frame._hdr leaves behind when pkt_header() raised: no header
+        return ["", "", "", ""]
     if not 3 <= len(parts) <= 4:
         raise ValueError(f"unexpected header shape: {h!r}")
     return parts + [""] * (4 - len(parts))
